@@ -50,6 +50,9 @@ async fn handler(req: DiameterMessage, dict: Arc<Dictionary>, seen: Arc<Mutex<Ve
     if sid.starts_with("PANIC") {
         panic!("handler panic requested by the scenario");
     }
+    if sid.starts_with("VERYSLOW") {
+        tokio::time::sleep(Duration::from_millis(5000)).await;
+    }
     if sid.starts_with("SLOW") {
         // gives the scenario time to make the peer vanish before its answer is written
         tokio::time::sleep(Duration::from_millis(250)).await;
@@ -655,6 +658,10 @@ pub fn tls_rotate(st: &State, _t: &mut Toks) -> PResult<String> {
 pub fn tls_swap(st: &State, t: &mut Toks) -> PResult<String> {
     let dict = st.dicts.get("b").ok_or_else(|| "dict b missing".to_string())?.clone();
     let verify = t.boolean()?;
+    // optional prologue on the same client object: `dropfirst` = a connect() against a peer that never answers the ClientHello, given up
+    // by the caller after 400 ms (its future is dropped); `fails33` = 33 connect() calls in a row refused for the certificate's name;
+    // `busy` = (another connection's handler is busy for five seconds while the sequence runs)
+    let prologue = t.next().unwrap_or("none").to_string();
     let rt = rt();
     let out = rt.block_on(async move {
         let seen = Arc::new(Mutex::new(Vec::new()));
@@ -679,6 +686,30 @@ pub fn tls_swap(st: &State, t: &mut Toks) -> PResult<String> {
         });
         let mut client = DiameterClient::new(&format!("localhost:{}", port), DiameterClientConfig { use_tls: true, verify_cert: verify });
         let mut o = String::from("TLSSWAP");
+        if prologue == "dropfirst" {
+            let mute = TcpListener::bind(("127.0.0.1", 0)).await.map_err(|e| e.to_string())?;
+            *target.lock().unwrap() = mute.local_addr().map_err(|e| e.to_string())?;
+            tokio::spawn(async move {
+                let mut keep = Vec::new();
+                while let Ok((s, _)) = mute.accept().await { keep.push(s); }
+            });
+            let _ = tokio::time::timeout(Duration::from_millis(400), client.connect()).await;
+        } else if prologue == "fails33" {
+            *target.lock().unwrap() = addrs[2];
+            for _ in 0..33 {
+                let _ = tokio::time::timeout(Duration::from_millis(3000), client.connect()).await;
+            }
+        } else if prologue == "busy" {
+            let a0 = addrs[0];
+            let d3 = Arc::clone(&dict);
+            tokio::spawn(async move {
+                if let Ok(mut c) = Conn::open(a0, true).await {
+                    let _ = c.write_all(&request(&d3, "VERYSLOW-busy", 3)).await;
+                    tokio::time::sleep(Duration::from_secs(8)).await;
+                }
+            });
+            tokio::time::sleep(Duration::from_millis(400)).await;
+        }
         for (i, which) in [0usize, 1, 2, 0].iter().enumerate() {
             *target.lock().unwrap() = addrs[*which];
             let r = match tokio::time::timeout(Duration::from_millis(3000), client.connect()).await {
